@@ -1281,4 +1281,198 @@ theorem stmt_block_spec (text : List Char) (file : List UInt8) : ∀ (n : Nat),
           right; right
           exact ⟨rfl, h2, h3, h4, by simp only; omega, Or.inl (stmts_cons_none text g t ts' hr hsp), h6⟩
 
+/-! ## (c) the whole text -/
+
+theorem stmts_cons_inv (text : List Char) (g : Nat) (t : PTok) (ts : List PTok) (h : t.tok ≠ .rbrace)
+    (s : Stmt) (r : List PTok) (hs : stmt text g (t :: ts) = some (s, r)) (x : List Stmt)
+    (hx : stmts text (g + 1) (t :: ts) = some (x, [])) : ∃ ss, stmts text g r = some (ss, []) := by
+  cases hss : stmts text g r with
+  | none => rw [stmts_cons_none2 text g t ts h s r hs hss] at hx; cases hx
+  | some ssr =>
+    obtain ⟨ss, r'⟩ := ssr
+    rw [stmts_cons_some text g t ts h s r hs ss r' hss] at hx
+    simp only [Option.some.injEq, Prod.mk.injEq] at hx
+    exact ⟨ss, by rw [hx.2]⟩
+
+def TopPost (text : List Char) (file : List UInt8) (g : Nat) (ts : List PTok) (acc : List Statement) (p : P)
+    (r : List Statement × P) : Prop :=
+  (p.src.tail = none ∧ ∃ ss, stmts text g ts = some (ss, []) ∧ r.1 = acc ++ encStmts file ss ∧
+      r.2.src.errs = [] ∧ r.2.fault = .none ∧ r.2.depth = p.depth) ∨
+  (Bad r.2 ∧ (p.src.tail ≠ none ∨ ¬ ∃ ss, stmts text g ts = some (ss, []))) ∨
+  (p.src.tail = none ∧ r.2.src.errs = [] ∧ r.2.fault = .none ∧ p.depth + 1 ≤ r.2.depth ∧
+      ¬ ∃ ss, stmts text g ts = some (ss, []))
+
+theorem topLoop_spec (text : List Char) (file : List UInt8) : ∀ (n : Nat) (ts : List PTok), ts.length ≤ n →
+    ∀ (f g : Nat) (acc : List Statement) (p : P), At text file p ts → ts.length + 2 ≤ f → ts.length + 1 ≤ g →
+    (∀ x ∈ ts, okTok x) → TopPost text file g ts acc p (topLoop LS f acc p) := by
+  intro n
+  induction n using Nat.strongRecOn with
+  | _ n ih =>
+    intro ts hn f g acc p hat hf hg hadm
+    obtain ⟨f, rfl⟩ : ∃ f', f = f' + 1 := ⟨f - 1, by omega⟩
+    obtain ⟨g, rfl⟩ : ∃ g', g = g' + 1 := ⟨g - 1, by omega⟩
+    unfold topLoop
+    simp only
+    cases ts with
+    | nil =>
+      obtain ⟨f, rfl⟩ : ∃ f', f = f' + 1 := ⟨f - 1, by simp only [List.length_nil] at hf; omega⟩
+      obtain ⟨n1, n2, n3⟩ := nextStatement_nil text file f p hat
+      rw [n1]
+      simp only
+      cases htail : p.src.tail with
+      | none =>
+        left
+        obtain ⟨m1, m2, m3⟩ := n3 htail
+        exact ⟨htail, [], stmts_nil text g, by simp [encStmts], m1.clean, m1.fault, m3⟩
+      | some e =>
+        right; left
+        exact ⟨n2 (by rw [htail]; simp), Or.inl (by rw [htail]; simp)⟩
+    | cons t ts' =>
+      simp only [List.length_cons] at hf hg hn
+      by_cases hr : t.tok = .rbrace
+      · obtain ⟨f, rfl⟩ : ∃ f', f = f' + 1 := ⟨f - 1, by omega⟩
+        obtain ⟨n1, n2, n3, n4⟩ := nextStatement_rbrace text file f p t ts' hat hr
+        rw [n1]
+        simp only
+        right; left
+        refine ⟨topLoop_bad _ _ _ (addErr_bad _ _), Or.inr ?_⟩
+        rintro ⟨ss, hss⟩
+        rw [stmts_rbrace text g t ts' hr] at hss
+        simp at hss
+      · have hs := (stmt_block_spec text file (ts'.length + 1)).1 (t :: ts') (by simp) t ts' rfl hr f g p hat
+          (by simp only [List.length_cons]; omega) (by simp only [List.length_cons]; omega) hadm
+        rcases hs with ⟨s, rest, hsp, h1, h2, h3, h4⟩ | ⟨hbad, hsp⟩ | ⟨h1, h2, h3, h4, h5, hsp, h6⟩
+        · rw [h1]
+          simp only
+          obtain ⟨hsx, hlen⟩ := (stmt_stmts_suffix text g).1 _ _ _ hsp
+          simp only [List.length_cons] at hlen
+          have htop := ih rest.length (by omega) rest (Nat.le_refl _) f g (acc ++ [encStmt file s])
+            (nextStatement LS f p).2 h2 (by omega) (by omega) (fun x hx => hadm x (List.IsSuffix.mem hx hsx))
+          rcases htop with ⟨ht, ss, hss, hr1, hr2, hr3, hr4⟩ | ⟨hbad, hsp'⟩ | ⟨ht, hr2, hr3, hr5, hsp'⟩
+          · left
+            refine ⟨h4.symm.trans ht, s :: ss, stmts_cons_some text g t ts' hr s rest hsp ss _ hss, ?_, hr2, hr3,
+              hr4.trans h3⟩
+            rw [hr1]; simp [encStmts]
+          · right; left
+            refine ⟨hbad, ?_⟩
+            rcases hsp' with h | h
+            · exact Or.inl (by rw [← h4]; exact h)
+            · right
+              rintro ⟨x, hx⟩
+              exact h (stmts_cons_inv text g t ts' hr s rest hsp x hx)
+          · right; right
+            refine ⟨h4.symm.trans ht, hr2, hr3, by omega, ?_⟩
+            rintro ⟨x, hx⟩
+            exact hsp' (stmts_cons_inv text g t ts' hr s rest hsp x hx)
+        · right; left
+          refine ⟨?_, Or.inr ?_⟩
+          · split
+            · exact hbad
+            · exact topLoop_bad _ _ _ (addErr_bad _ _)
+            · exact topLoop_bad _ _ _ hbad
+          · rintro ⟨x, hx⟩
+            rw [stmts_cons_none text g t ts' hr hsp] at hx
+            cases hx
+        · rw [h1]
+          simp only
+          right; right
+          refine ⟨h6, h2, h3, h5, ?_⟩
+          rintro ⟨x, hx⟩
+          rw [stmts_cons_none text g t ts' hr hsp] at hx
+          cases hx
+
+/-- the parser before the first token -/
+def initP (text : List Char) (file : List UInt8) (toks : List PTok) (tail : Option ErrLine) : P :=
+  { src := { text := text, file := file, toks := toks, errs := [], tail := tail }, tokens := [], depth := 0,
+    fault := .none }
+
+/-- **(c)**: over the tokens of the reference reader the parser model returns a forest exactly
+when the statement grammar derives one, and it is the same forest (keywords, arguments with
+`+`-joined pieces concatenated, positions, nesting, sibling order).  `tail` is what a lexer that
+stops at an unterminated quote or comment reports after the last token. -/
+theorem parse_list (text : List Char) (file : List UInt8) (toks : List PTok) (tail : Option ErrLine)
+    (fuel : Nat) (hf : toks.length + 2 ≤ fuel) (hadm : ∀ x ∈ toks, okTok x) (forest : List Statement) :
+    parseWith LS fuel { text := text, file := file, toks := toks, errs := [], tail := tail } = .ok forest ↔
+      tail = none ∧ ∃ ss, parseTokens text toks = some ss ∧ forest = encStmts file ss := by
+  unfold parseWith
+  simp only
+  rw [show ({ src := { text := text, file := file, toks := toks, errs := [], tail := tail }, tokens := [],
+    depth := 0, fault := Fault.none } : P) = initP text file toks tail from rfl]
+  have hat : At text file ((initP text file toks tail) : P) toks := ⟨rfl, rfl, rfl, rfl, rfl, rfl⟩
+  have htop := topLoop_spec text file toks.length toks (Nat.le_refl _) fuel (toks.length + 1) [] _ hat hf
+    (Nat.le_refl _) hadm
+  have hpt : ∀ ss, parseTokens text toks = some ss ↔ stmts text (toks.length + 1) toks = some (ss, []) := by
+    intro ss
+    unfold parseTokens
+    constructor
+    · intro h
+      split at h
+      · rename_i forest' heq; injection h with h; rw [heq, h]
+      · cases h
+    · intro h; rw [h]
+  rcases htop with ⟨ht, ss, hss, hr1, hr2, hr3, hr4⟩ | ⟨hbad, hsp⟩ | ⟨ht, hr2, hr3, hr5, hsp⟩
+  · have hd : (topLoop LS fuel [] (initP text file toks tail)).2.depth = 0 := hr4
+    have hchk : checkStatementDepthIsZero LS (topLoop LS fuel [] (initP text file toks tail)).2 =
+        (topLoop LS fuel [] (initP text file toks tail)).2 := by
+      unfold checkStatementDepthIsZero
+      rw [if_pos (by rw [hd]; simp)]
+    rw [hchk, if_neg (by rw [hr3]; simp), if_neg (by simp [listSource]),
+      if_pos (by show (List.isEmpty (LSrc.errs _)) = true; rw [hr2]; rfl)]
+    rw [hr1]
+    simp only [List.nil_append, ParseResult.ok.injEq]
+    constructor
+    · intro h; exact ⟨ht, ss, (hpt ss).2 hss, h.symm⟩
+    · rintro ⟨_, ss', hss', hf'⟩
+      have := (hpt ss').1 hss'
+      rw [hss] at this
+      simp only [Option.some.injEq, Prod.mk.injEq, and_true] at this
+      rw [hf', this]
+  · have hb2 : Bad (checkStatementDepthIsZero LS (topLoop LS fuel [] (initP text file toks tail)).2) := by
+      unfold checkStatementDepthIsZero
+      split
+      · exact hbad
+      · exact addErr_bad _ _
+    constructor
+    · intro h
+      exfalso
+      split at h
+      · cases h
+      · split at h
+        · cases h
+        · split at h
+          · rename_i he
+            apply hb2
+            exact List.isEmpty_iff.mp he
+          · cases h
+    · rintro ⟨ht, ss, hss, _⟩
+      exfalso
+      rcases hsp with h | h
+      · exact h ht
+      · exact h ⟨ss, (hpt ss).1 hss⟩
+  · have hne : ¬ ((LS.errs (topLoop LS fuel [] (initP text file toks tail)).2.src).isEmpty = false ∨
+        (topLoop LS fuel [] (initP text file toks tail)).2.depth = 0) := by
+      intro h
+      rcases h with h | h
+      · have : (LS.errs (topLoop LS fuel [] (initP text file toks tail)).2.src) = [] := hr2
+        rw [this] at h; cases h
+      · rw [h] at hr5; simp at hr5
+    have hb2 : Bad (checkStatementDepthIsZero LS (topLoop LS fuel [] (initP text file toks tail)).2) := by
+      unfold checkStatementDepthIsZero
+      rw [if_neg (by simpa using hne)]
+      exact addErr_bad _ _
+    constructor
+    · intro h
+      exfalso
+      split at h
+      · cases h
+      · split at h
+        · cases h
+        · split at h
+          · rename_i he
+            apply hb2
+            exact List.isEmpty_iff.mp he
+          · cases h
+    · rintro ⟨_, ss, hss, _⟩
+      exact absurd ⟨ss, (hpt ss).1 hss⟩ hsp
+
 end Goyang.Lemmas.ListSrc
